@@ -472,6 +472,24 @@ Section Frag.
        cbn [forallb]; unfold entry_sat; kwd; apply andb_true_r).
   Qed.
 
+  (* a uniform tuple validator evaluates its predicates on the coerced tuple; the schema's keywords
+     are read on the JSON array it came from *)
+  Lemma count_preds_tuple ps xs d :
+    forallb count_frag ps = true ->
+    exists fs, failing_preds E ps (VTuple xs) = Ok fs /\
+               forallb (esat d (VList xs)) (flat_entries ps) = match fs with [] => true | _ => false end.
+  Proof.
+    induction ps as [|p ps IH]; cbn [forallb failing_preds flat_entries flat_map]; intros Hps.
+    - eexists; split; reflexivity.
+    - apply andb_prop in Hps. destruct Hps as [Hp Hps]. destruct (IH Hps) as [fs [F1 F2]].
+      destruct p; try discriminate; cbn [pred_eval py_len unsub pbind]; rewrite F1; cbn [pbind];
+        (eexists; split; [reflexivity|]); unfold pred_entries at 1; cbn [pred_schema];
+          rewrite forallb_app; fold (flat_entries ps); rewrite F2; cbn [forallb]; unfold entry_sat; kwd;
+            rewrite andb_true_r.
+      + destruct (n <=? zlen xs), fs; reflexivity.
+      + destruct (zlen xs <=? n), fs; reflexivity.
+  Qed.
+
   (* ---------- children of a list ---------- *)
 
   Lemma collect_items_agree (rec : runner) item (b : pyval -> bool) : forall xs i,
@@ -699,6 +717,9 @@ Section Frag.
     | ListV item ps [] None =>
         frag item && forallb count_frag ps
         && strs_unique (lit "type" :: lit "items" :: map fst (flat_entries ps))
+    | UTupleV item ps [] (Some CoTupleOrList) =>
+        frag item && forallb count_frag ps
+        && strs_unique (lit "type" :: lit "items" :: map fst (flat_entries ps))
     | NTupleV fields None (Some CoTupleOrList) => forallb frag fields
     | MapV (Scalar KStr None [] [] []) vv ps [] None =>
         frag vv && forallb keys_frag ps
@@ -721,6 +742,7 @@ Section Frag.
   Fixpoint vheight (v : validator) : nat :=
     match v with
     | ListV item _ _ _ => S (vheight item)
+    | UTupleV item _ _ _ => S (vheight item)
     | NTupleV fields _ _ => S (list_max (map vheight fields))
     | MapV _ vv _ _ _ => S (vheight vv)
     | DictAnyV schema _ _ _ => S (list_max (map (fun kv => vheight (snd kv)) schema))
@@ -930,6 +952,34 @@ Section Frag.
       change (exact_type (VList xs) TList) with true. cbn iota.
       destruct (preds_sat _ _ count_class ps (VList xs)
                           ((lit "type", JStr (lit "array")) :: (lit "items", JObj dj) :: flat_entries ps) Hps eq_refl)
+        as [fs [F1 F2]].
+      unfold pred_stage, all_failing. rewrite F1. cbn [pbind]. rewrite F2.
+      change (type_sat (lit "array") (VList xs)) with true. cbn [andb].
+      destruct fs as [|f0 fs]; [|rewrite andb_false_r; cbn [agree]; eexists; reflexivity].
+      rewrite andb_true_r. cbn [py_iter unsub].
+      assert (Hitems : forall xi, In xi xs -> agree (sat (JObj dj) xi) (run E Sync n v xi)).
+      { intros xi Hin. cbn [is_json] in Hx. rewrite forallb_forall in Hx.
+        destruct (IHv Hfi n ltac:(lia) xi (Hx xi Hin)) as [dj' [Ej' Hj']].
+        rewrite Ej in Ej'. injection Ej' as <-. exact Hj'. }
+      destruct (collect_items_agree (run E Sync n) v (sat (JObj dj)) xs 0%nat Hitems) as [ws [errs [C1 C2]]].
+      rewrite C1, <- C2. destruct errs; cbn [agree]; eexists; reflexivity.
+    - (* UTupleV *)
+      destruct aps; try discriminate. destruct co as [[]|]; try discriminate.
+      apply andb_prop in Hf. destruct Hf as [Hf Hu]. apply andb_prop in Hf. destruct Hf as [Hfi Hps].
+      cbn [vheight] in Hn.
+      destruct (IHv Hfi (S (vheight v)) (Nat.lt_succ_diag_r _) VNone eq_refl) as [dj [Ej _]].
+      cbn [to_schema]. rewrite Ej. cbn [pbind].
+      rewrite (preds_update_flat _ _ count_class ps _ Hps) by exact Hu. cbn [pbind apreds_schema app].
+      eexists; split; [reflexivity|].
+      set (d := (lit "type", JStr (lit "array")) :: (lit "items", JObj dj) :: flat_entries ps).
+      assert (Hnull : nullable d = false).
+      { unfold nullable. rewrite obj_get_none; [reflexivity|]. subst d. cbn [forallb].
+        fold (not_key knull). rewrite (flat_entries_not ps). reflexivity. }
+      cbn [SchemaSat.sat]. rewrite Hnull. cbn [andb orb]. subst d. cbn [forallb].
+      unfold entry_sat at 1 2. kwd.
+      unfold utuple_body, seq_body. cbn [mode_eqb nonempty andb gate coerce_apply].
+      destruct x; try discriminate; try (cbn; eexists; reflexivity).
+      destruct (count_preds_tuple ps xs ((lit "type", JStr (lit "array")) :: (lit "items", JObj dj) :: flat_entries ps) Hps)
         as [fs [F1 F2]].
       unfold pred_stage, all_failing. rewrite F1. cbn [pbind]. rewrite F2.
       change (type_sat (lit "array") (VList xs)) with true. cbn [andb].
